@@ -244,6 +244,8 @@ package plush
 //@ requires cctx: cctx(c)
 //@ ensures restored: c.ctx == old(c.ctx) && (c.curStmt == nil || pay(c.curStmt) != 0)
 //@ ensures arity: len(args) < len(node.Parameters) ==> err != nil
+// C16: the evaluated argument values are held in storage of this call only
+//@ owned vals
 //@ errprop
 //@ assigns c.ctx, c.curStmt, mapsof("map[string]interface{}"), fresh
 //@ loop 1: invariant callerscope: cctx(c) && c.ctx == old(c.ctx) && len(vals) == len(node.Parameters) && len(args) >= len(node.Parameters) && 0 <= ridx1
@@ -351,11 +353,18 @@ package plush
 //@ requires arg != 0 && c != nil && node != nil
 //@ ensures grow: len(args) == old(len(args)) + 1 && (forall j int :: 0 <= j && j < old(len(args)) ==> args[j] == old(args[j]))
 //@ ensures last: rvValid(args[len(args)-1]) && assignable(rvType(args[len(args)-1]), arg)
+//@ owned args
 //@ assigns args, fresh
 
 //@ func (c *compiler) evalCallExpression
 //@ ensures ufn: is(result, "*userFunction") ==> pay(result) != 0
 //@ requires node != nil
+// C12: the argument vector is built in storage of this call only (nested calls cannot overwrite it)
+//@ owned args
+// C05/C12: a non-nil trailing error result of the helper fails the call, wrapping that error
+//@ ghost hres = callresult after Call#1
+//@ ensures helpererr: calls(Call) > 0 && len(hres) > 0 && is(rvIface(hres[len(hres)-1]), "error") ==> err != nil && wraps(err, rvIface(hres[len(hres)-1]))
+//@ ensures firstres: calls(Call) > 0 && err == nil && node.ChainCallee == nil && len(hres) > 0 ==> result == rvIface(hres[0])
 //@ loop 1: invariant cctx(c) && c.ctx == old(c.ctx) && len(args) == ridx1 && ridx1 <= len(node.Arguments) && rt != 0 && kindof(rt) == 19 && rtNumIn == numIn(rt) && !isVariadic(rt) && len(node.Arguments) <= rtNumIn
 //@ loop 1: invariant argsok: forall j int :: 0 <= j && j < len(args) ==> rvValid(args[j]) && assignable(rvType(args[j]), inType(rt, j))
 // C12: each supplied argument is passed positionally, unchanged (nil becomes the parameter type's zero value)
